@@ -8,20 +8,51 @@ import (
 	"github.com/freeconf/yang/parser"
 )
 
-func main() {
-	y := `module k { namespace "urn:k"; prefix k; revision 0; container box { list l { key k; leaf k { type binary; } leaf v { type string; } } } }`
-	m, _ := parser.LoadModuleFromString(nil, y)
-	for _, be := range []string{"node", "reflect"} {
-		d := map[string]interface{}{}
-		var root node.Node = nodeutil.ReflectChild(d)
-		if be == "node" {
-			root = &nodeutil.Node{Object: d}
+func try(name string, f func() string) {
+	defer func() {
+		if r := recover(); r != nil {
+			fmt.Printf("%-30s PANIC %v\n", name, r)
 		}
-		b := node.NewBrowser(m, root)
-		src, _ := nodeutil.ReadJSON(`{"box":{"l":[{"k":"aGk=","v":"v0"},{"k":"AA==","v":"v1"},{"k":"+//+","v":"v2"}]}}`)
-		err := b.Root().UpsertFrom(src)
-		fmt.Printf("%s %v %q\n", be, err, fmt.Sprint(d))
-		out, err := nodeutil.WriteJSON(b.Root())
-		fmt.Println(out, err)
+	}()
+	fmt.Printf("%-30s %s\n", name, f())
+}
+
+func main() {
+	y := `module k { yang-version 1.1; namespace "urn:k"; prefix k; revision 0; identity b; identity i1 { base b; }
+	leaf u { type union { type enumeration { enum red; enum blue; } type int32; } }
+	leaf-list ul { type union { type int32; type string; } }
+	leaf ue { type union { type empty; type string; } }
+	typedef t { type union { type int8; type string; } } leaf uu { type union { type boolean; type t; } }
+	leaf on { type empty; } leaf e2 { type empty; }
+	leaf ui { type union { type identityref { base b; } type int32; } }
+	leaf ub { type union { type bits { bit x; bit y; } type int32; } }
+	container c { leaf d { type int32; default 5; } container in { leaf d2 { type int32; default 6; } } } leaf td { type int32; default 7; }
+	}`
+	m, err := parser.LoadModuleFromString(nil, y)
+	if err != nil {
+		panic(err)
 	}
+	rd := func(doc string, find string) string {
+		n, err := nodeutil.ReadJSON(doc)
+		if err != nil {
+			return err.Error()
+		}
+		s, err := node.NewBrowser(m, n).Root().Find(find)
+		if err != nil || s == nil {
+			return fmt.Sprint("find ", err)
+		}
+		j, err := nodeutil.WriteJSON(s)
+		x, err2 := nodeutil.WriteXML(s)
+		return fmt.Sprint(j, " ", err, " | ", x, " ", err2)
+	}
+	for _, d := range []string{`{"u":"red"}`, `{"u":5}`, `{"ul":[1,"a"]}`, `{"ue":"abc"}`, `{"ue":[null]}`, `{"uu":"abc"}`, `{"uu":true}`, `{"uu":5}`, `{"on":[null]}`, `{"ui":"i1"}`, `{"ui":7}`, `{"ub":"x y"}`, `{"ub":3}`} {
+		try(d, func() string { return rd(d, "") })
+	}
+	try("empty false map", func() string {
+		j, err := nodeutil.WriteJSON(node.NewBrowser(m, nodeutil.ReflectChild(map[string]interface{}{"on": false, "e2": true})).Root())
+		return fmt.Sprint(j, err)
+	})
+	try("defaults root", func() string { return rd(`{"c":{"in":{}}}`, "") })
+	try("defaults c", func() string { return rd(`{"c":{"in":{}}}`, "c") })
+	try("defaults c/in", func() string { return rd(`{"c":{"in":{}}}`, "c/in") })
 }
